@@ -554,6 +554,16 @@ def stream_fit(c, N):
             c.fail("fit with monotonicity > 0 decreases at a test point", case, {"min slope": float(d1.min())})
         if mono < 0 and not np.all(d1 <= tol1):
             c.fail("fit with monotonicity < 0 increases at a test point", case, {"max slope": float(d1.max())})
+        # monotone coefficients make the curve monotone everywhere (theorem
+        # `increasing_coefficients_slope_nonneg`), not only at the test points
+        dense = splev(np.linspace(x[0], x[-1], 397), (t, wpad, k), der=1)
+        dw = np.diff(w[:m])
+        if mono > 0 and not (np.all(dense >= -tol1) and np.all(dw >= eps - 1e-6 * yscale)):
+            c.fail("fit with monotonicity > 0 is not increasing on the data range", case,
+                   {"min slope": float(dense.min()), "min coefficient step": float(dw.min())})
+        if mono < 0 and not (np.all(dense <= tol1) and np.all(dw <= -eps + 1e-6 * yscale)):
+            c.fail("fit with monotonicity < 0 is not decreasing on the data range", case,
+                   {"max slope": float(dense.max()), "max coefficient step": float(dw.max())})
         if curv > 0 and not np.all(d2 >= eps - tol2):
             c.fail("fit with curvature > 0 is not convex at a test point", case, {"min curvature": float(d2.min())})
         if curv < 0 and not np.all(d2 <= -eps + tol2):
@@ -729,7 +739,7 @@ def stream_reverse(c, N):
                     except ValueError:
                         roots.append(None)
             case = dict(stream="reverse", t=t, w=w, k=k, shape=shape, ys=ys, form=form, detect=detect,
-                        domain=[ld, ud])
+                        domain=[ld, ud], range_ends=[float(v) for v in lt.range])
             cases.append((case, cls, xs, r, (rlo, rhi, width, scale, dl, du, lo_b, hi_b), ref))
             lines.append(dict(op="rev", t=frs(t), w=frs(w), k=k, dl=fr(float(dl)), du=fr(float(du)),
                               ld=None if ld is None else fr(ld), ud=None if ud is None else fr(ud),
@@ -742,7 +752,8 @@ def stream_reverse(c, N):
         fin = [v for v in ys if not math.isnan(v)]
         margin = 1e-9 * max(scale, width)
         strictly_out = [v for v in fin if v < rlo - margin or v > rhi + margin]
-        well_in = all(rlo + margin <= v <= rhi - margin for v in fin)
+        ends = set(case["range_ends"])
+        well_in = all(rlo + margin <= v <= rhi - margin or v in ends for v in fin)
         near_end = any(abs(v - rlo) <= margin or abs(v - rhi) <= margin for v in fin)
         c.count(("rev", case["shape"], case["form"], case["detect"], case["domain"][0] is None,
                  case["domain"][1] is None, cls, len(ys), len(fin), bool(strictly_out)))
@@ -1155,8 +1166,10 @@ def run(c):
     c.assumptions = [
         "CasADi evaluates the expression graph the code builds (if_else, logic_and/or, jacobian); IPOPT returns a "
         "point within its tolerances when it reports success (re-checked per instance at the test points)",
-        "scipy.optimize.brentq returns a root inside a sign-changing bracket and refuses other brackets "
-        "(`RootSound` / `RootComplete` hypotheses of the theorems; the transcript is re-checked per call)",
+        "scipy.optimize.brentq returns a root (to its tolerance) inside a sign-changing bracket of a continuous "
+        "table and refuses other brackets (`RootSound eps` / `RootCompleteFor f` hypotheses of the theorems; the "
+        "transcript is re-checked per call); tables with jumps (interior knots of multiplicity k+1) are outside "
+        "the inverse-lookup clause",
         "file modification times are what os.path.getmtime reports and do not go backwards (`Chrono`)",
         "spline values compared with 1e-9 relative tolerance (binary64 vs exact rationals), derivatives 1e-7, "
         "anything through IPOPT 1e-6",
